@@ -404,6 +404,11 @@ pub fn run(rep: &Report) {
     ins_plane(rep, if thorough { 5000 } else { 80 }, false, rep.seed ^ 0xD1);
     // histories mix the multiply/divide family with flag-setting neighbours (incoming flags vary along the way);
     // byte IMUL is left out (recorded known finding)
+    crate::insplane::mixed_history(rep, if thorough { 40_000 } else { 500 }, 60, rep.seed ^ 0x143, "C03 among all instruction families", "ins", &|i| match i {
+        Ins::Un(op, _) => matches!(op, Un::Mul | Un::Imul | Un::Div | Un::Idiv),
+        Ins::Simple(s) => ["aaa", "aas", "daa", "das", "aam", "aad", "cbw", "cwd"].contains(s),
+        _ => false,
+    });
     crate::insplane::history_plane(rep, if thorough { 40_000 } else { 600 }, 80, rep.seed ^ 0x43, false, "C03 lock-step history", "ins", &|rng| {
         let bl: Vec<&str> = crate::c01::BLABELS.iter().map(|x| x.0).collect();
         let wl: Vec<&str> = crate::c01::WLABELS.iter().map(|x| x.0).collect();
